@@ -809,12 +809,24 @@ func TestVerifC15(t *testing.T) {
 				inSeq := a
 				if out.Included && out.Success && out.GasUsed > 1 && rng.Intn(100) < 45 {
 					// failure-point sweep: the same call with a budget that ends inside the execution
-					sw := gen.WithGas(a, int64(rng.Intn(int(out.GasUsed))))
+					budget, rem, cls := int64(rng.Intn(int(out.GasUsed))), int64(0), "inside"
+					switch rng.Intn(5) {
+					case 0: // the max fee covers the size fee and not one unit of gas
+						budget, cls = 0, "zero"
+					case 1: // one unit short, plus most of the price of that unit (a fraction buys nothing)
+						budget, rem, cls = int64(out.GasUsed)-1, int64(rng.Range(500, 990)), "one-short-plus-fraction"
+					case 2:
+						rem, cls = int64(rng.Range(500, 990)), "inside-plus-fraction"
+					}
+					sw := gen.WithGasRem(a, budget, rem)
 					so := x.Eval(sw)
 					if so.Included {
 						rep.Count("gas_sweeps", 1)
+						rep.Count("gas_sweeps:"+cls, 1)
 						if so.Success {
-							rep.Count("gas_sweeps_still_ok", 1)
+							// the same tx on the same state needed out.GasUsed units a moment ago
+							rep.Violation("success-with-less-gas-than-the-run-needs:"+cls+":"+a.Kind, fmt.Sprintf("%s succeeds (GasUsed %d) with a max fee that buys %d units of gas (+%d/1000 of a unit), although the same transaction on the same state uses %d units when it has ample gas",
+								a.Describe(), so.GasUsed, budget, rem, out.GasUsed), map[string]interface{}{"action": a.Describe()})
 						} else if seqRng.Bool() {
 							inSeq = sw // the variant that runs out of gas half-way goes into the same-block sequence
 						}
